@@ -877,3 +877,129 @@ pub fn exec_script(script: &Value) -> CaseOut {
     // running it again is harmless (empty syncs)
     r.quiesce_and_finish(script["seed"].as_u64().unwrap_or(0), script["id"].as_u64().unwrap_or(0) as usize)
 }
+
+/// interleaved syncs at request granularity (C02)
+pub fn gen_sched(seed: u64, id: usize, max_actions: usize) -> CaseOut {
+    let mut rng = Rng::new(seed ^ (id as u64).wrapping_mul(0xC2B2AE3D27D4EB4F) ^ 0x5ced);
+    let n = rng.range(2, 4);
+    let mut r = Runner::new(n);
+    let mut g = Gen::new(rng.fork(), &r.w.pools);
+    let big_pct = if rng.chance(15) { 30 } else { 0 };
+    // a prior history: some commits and sequential syncs
+    let k = rng.range(2, max_actions);
+    for _ in 0..k {
+        let i = rng.below(n);
+        if rng.chance(70) {
+            let cur = r.w.tasks(i);
+            let ops = g.batch(&cur, 3, big_pct);
+            if !ops.is_empty() {
+                r.perform(&Action::Commit(i, ops));
+            }
+        } else {
+            r.perform(&Action::Sync(i, false, 0));
+        }
+    }
+    // make sure at least two replicas have something to send
+    for i in 0..n {
+        if rng.chance(75) {
+            let cur = r.w.tasks(i);
+            let ops = g.batch(&cur, 3, big_pct);
+            if !ops.is_empty() {
+                r.perform(&Action::Commit(i, ops));
+            }
+        }
+    }
+    // racing syncs: start all, then schedule steps at random, biased to let a replica pull
+    // everything and then run another replica's push before its own
+    let racers: Vec<usize> = (0..n).filter(|_| rng.chance(85)).collect();
+    for &i in &racers {
+        r.perform(&Action::Start(i, false));
+    }
+    let mut guard = 0;
+    loop {
+        let live: Vec<usize> = (0..n).filter(|i| r.w.in_flight(*i)).collect();
+        if live.is_empty() || guard > 400 {
+            break;
+        }
+        guard += 1;
+        // prefer a replica whose next request is an AddVersion when another one is too (race)
+        let pushers: Vec<usize> = live
+            .iter()
+            .copied()
+            .filter(|i| matches!(r.w.pending_req(*i), Some(Req::AddVersion(..))))
+            .collect();
+        let i = if pushers.len() >= 2 && rng.chance(70) {
+            pushers[rng.below(pushers.len())]
+        } else if !pushers.is_empty() && rng.chance(35) {
+            // let a non-pusher advance first so that pushers accumulate
+            let others: Vec<usize> = live.iter().copied().filter(|i| !pushers.contains(i)).collect();
+            if others.is_empty() { pushers[rng.below(pushers.len())] } else { others[rng.below(others.len())] }
+        } else {
+            live[rng.below(live.len())]
+        };
+        r.perform(&Action::Step(i, 0));
+        // occasionally a new commit + sync start on an idle replica while others are mid-sync
+        if rng.chance(8) {
+            let idle: Vec<usize> = (0..n).filter(|i| !r.w.in_flight(*i)).collect();
+            if !idle.is_empty() {
+                let j = idle[rng.below(idle.len())];
+                let cur = r.w.tasks(j);
+                let ops = g.batch(&cur, 2, 0);
+                if !ops.is_empty() {
+                    r.perform(&Action::Commit(j, ops));
+                }
+                r.perform(&Action::Start(j, false));
+            }
+        }
+    }
+    r.quiesce_and_finish(seed, id)
+}
+
+/// faults at every kind of point of a sync (C04): errors before the effect, lost replies,
+/// dropped transactions, possibly several in a row, with other replicas syncing in between
+pub fn gen_fault(seed: u64, id: usize, max_actions: usize) -> CaseOut {
+    let mut rng = Rng::new(seed ^ (id as u64).wrapping_mul(0x165667B19E3779F9) ^ 0xfa17);
+    let n = rng.range(2, 3);
+    let mut r = Runner::new(n);
+    let mut g = Gen::new(rng.fork(), &r.w.pools);
+    let big_pct = if rng.chance(30) { 35 } else { 0 };
+    let k = rng.range(2, max_actions);
+    for _ in 0..k {
+        let i = rng.below(n);
+        let c = rng.below(100);
+        if c < 45 {
+            let cur = r.w.tasks(i);
+            let ops = g.batch(&cur, 4, big_pct);
+            if !ops.is_empty() {
+                r.perform(&Action::Commit(i, ops));
+            }
+        } else if c < 60 {
+            r.perform(&Action::Sync(i, false, 0));
+        } else {
+            // a sync that is interrupted after `cut` requests
+            r.perform(&Action::Start(i, false));
+            let cut = rng.below(7);
+            let mut steps = 0;
+            while r.w.in_flight(i) && steps < cut {
+                r.perform(&Action::Step(i, 0));
+                steps += 1;
+            }
+            if r.w.in_flight(i) {
+                match rng.below(3) {
+                    0 => r.perform(&Action::Abandon(i, 0)),
+                    1 => r.perform(&Action::Abandon(i, 1)),
+                    _ => r.perform(&Action::Lost(i, 0)),
+                }
+            }
+            // sometimes another replica gets in before the retry
+            if rng.chance(30) {
+                let j = (i + 1) % n;
+                r.perform(&Action::Sync(j, false, 0));
+            }
+            if rng.chance(60) {
+                r.perform(&Action::Sync(i, false, 0));
+            }
+        }
+    }
+    r.quiesce_and_finish(seed, id)
+}
